@@ -589,6 +589,12 @@ func (s *sx) doCall(f *frame, x *ssa.Call) SV {
 	}
 	if s.opaqueFns[callee.Name()] {
 		s.note("calls to " + callee.Name() + " are not followed (result assumed: no error)")
+		// a writer-built buffer handed to a function that is not followed: filled by it
+		for _, a := range args {
+			if a.K == kBytes && a.Buf != nil && len(a.Buf.events) == 0 && a.Buf.fixed {
+				a.Buf.events = append(a.Buf.events, bufEvent{off: linC(0), n: a.Buf.length, kind: "bytes", val: SV{K: kBytes, Path: "filled-by:" + callee.Name(), Whole: true}})
+			}
+		}
 		return s.opaqueResult(x, "call:"+callee.Name())
 	}
 	if !s.p.IsModFunc(callee) {
